@@ -54,7 +54,7 @@ class SymDict(object):
         if V.is_str(key):
             # test_for_specials looks a key up that it has just obtained from keys(): the spec stored
             # under it carries these characters (A-DB)
-            return AbsVal(it.ctx.fresh_int('spec'), 'spec', attrs={'specials_chars': key})
+            return AbsVal(it.ctx.fresh_int('spec'), 'spec', attrs={'specials_chars': key}, methods=SPEC_METHODS)
         k = name_code(it, key)
         if not it.ctx.spec and not it.ctx.branch(has(self.term, k)):
             it.raise_builtin('KeyError', 'wd:key[%s]' % src)
@@ -141,11 +141,23 @@ def name_code(it, key):
     raise EngineError('dictionary key %r' % (key,))
 
 
+def get_node_parser(it, self, args, kwargs):
+    """spec.get_node_parser(token): a call parser for that token (its node starts at the token), or None"""
+    tok = args[0] if args else kwargs.get('token')
+    if it.ctx.choose(2, 'spec provides a parser') == 1:
+        return None
+    return AbsVal(it.ctx.fresh_int('call_parser'), 'parser',
+                  attrs={'span_start': it.getattr(tok, 'pos'), 'kind': 'call_parser', 'token': tok, 'spec': self})
+
+
+SPEC_METHODS = {'get_node_parser': get_node_parser}
+
+
 def spec_val(it, term, key=None):
     attrs = {}
     if key is not None and V.is_str(key):
         attrs['specials_chars'] = key
-    return AbsVal(term, 'spec', attrs=attrs)
+    return AbsVal(term, 'spec', attrs=attrs, methods=SPEC_METHODS)
 
 
 def enc_dict(it, v):
@@ -225,7 +237,7 @@ def fresh_maps(it, hint):
 
 
 # ---------------------------------------------------------------------------------------------
-def mk_db(it, name='self', frozen=None, unknowns=True):
+def mk_db(it, name='self', frozen=None, unknowns=True, assume_inv=False):
     """a LatexContextDb in an arbitrary state satisfying DB_inv"""
     ctx = it.ctx
     n = z3.Int(name + '.ncats')
@@ -244,7 +256,7 @@ def mk_db(it, name='self', frozen=None, unknowns=True):
     for k, f in (('macros', 'unknown_macro_spec'), ('environments', 'unknown_environment_spec'),
                  ('specials', 'unknown_specials_spec')):
         if unknowns:
-            unk[f] = None if ctx.choose(2, f + ' set') == 0 else AbsVal(z3.Int('%s.%s' % (name, f)), 'spec')
+            unk[f] = None if ctx.choose(2, f + ' set') == 0 else AbsVal(z3.Int('%s.%s' % (name, f)), 'spec', methods=SPEC_METHODS)
         else:
             attrs = {'truth': lambda it2, sf, f=f: z3.Bool('%s.%s.set' % (name, f))}
             if k == 'specials':
@@ -254,10 +266,16 @@ def mk_db(it, name='self', frozen=None, unknowns=True):
                         memo[name] = it2.fresh_str('unknown_specials_chars')
                     return memo[name]
                 attrs['specials_chars'] = chars
-            unk[f] = AbsVal(z3.Int('%s.%s' % (name, f)), 'spec', attrs=attrs)
+            unk[f] = AbsVal(z3.Int('%s.%s' % (name, f)), 'spec', attrs=attrs, methods=SPEC_METHODS)
     fz = sym_bool(it, name + '.frozen') if frozen is None else frozen
     o = new_obj(it, DB, dict(category_list=cats, d=d, frozen=fz, lookup_chain_maps=PyDict(maps),
                              _autogen_category_counter=sym_int(it, name + '.counter', lo=0), **unk), tag=name)
+    if assume_inv:
+        from pyvc.interp import Frame
+        fr = Frame(it.program.module('pylatexenc.macrospec._latexcontextdb'))
+        fr.vars = {'self': o}
+        for _n, c in DB_INV:
+            ctx.assume(it.spec_truth(c, fr))
     return o
 
 
@@ -465,7 +483,7 @@ def register(reg):
             # used where the contract is assumed (e.g. by the tokenizer): some spec, or the unknown spec
             if it.ctx.branch(it.truth_term(env.vars['fnd'])):
                 attrs = {'specials_chars': it.fresh_str('stored_specials_chars')} if kind == 'specials' else {}
-                return AbsVal(it.ctx.fresh_int('spec'), 'spec', attrs=attrs)
+                return AbsVal(it.ctx.fresh_int('spec'), 'spec', attrs=attrs, methods=SPEC_METHODS)
             return env.vars['self'].fields[unk]
         DD = "D(self, '%s', cat_at(self, %%s))" % kind
         c = reg.add(Contract(
@@ -502,7 +520,7 @@ def register(reg):
     def mk_best(it, hint):
         if it.ctx.choose(2, 'best match so far') == 0:
             return None
-        return AbsVal(it.ctx.fresh_int('best'), 'spec', attrs={'specials_chars': it.fresh_str('best_chars')})
+        return AbsVal(it.ctx.fresh_int('best'), 'spec', attrs={'specials_chars': it.fresh_str('best_chars')}, methods=SPEC_METHODS)
 
     reg.spec('DS')(lambda it, db, i: db.fields['d'].arrs['specials'][db.fields['category_list'].arr[zint(i)]])
     reg.spec('key_at')(lambda it, db, i, j: key_str(db.fields['d'].arrs['specials'][db.fields['category_list'].arr[zint(i)]], j))
